@@ -8,6 +8,7 @@ import (
 	"sort"
 	"strconv"
 	"strings"
+	"sync"
 	"time"
 )
 
@@ -23,6 +24,7 @@ type propDef struct {
 	chunk     int
 	rule      string
 	assume    []string
+	rorder    bool // R-order: re-execute a sample of worker processes in descending order and compare per-run digests
 	// pre runs before the batch (R-pristine expectations …); post after it (R-order …)
 	pre  func(c *checkCtx)
 	post func(c *checkCtx) *found
@@ -45,20 +47,21 @@ type checkCtx struct {
 }
 
 type replayFile struct {
-	Property string    `json:"property"`
-	Seed     uint64    `json:"seed"`
-	RunIndex int       `json:"run_index"`
-	RunSeed  uint64    `json:"run_seed"`
-	Tier     string    `json:"tier"`
-	Class    string    `json:"class"`
-	Key      string    `json:"key"`
-	Detail   string    `json:"detail"`
-	Tape     []uint32  `json:"tape"`
-	Window   []int     `json:"window,omitempty"` // [from,to]: run indices to execute in one process when no single tape reproduces
-	TapeLen0 int       `json:"tape_len_before_shrinking"`
-	Trace    []string  `json:"trace"`
-	Race     string    `json:"race_report,omitempty"`
-	Note     string    `json:"note,omitempty"`
+	Property string   `json:"property"`
+	Seed     uint64   `json:"seed"`
+	RunIndex int      `json:"run_index"`
+	RunSeed  uint64   `json:"run_seed"`
+	Tier     string   `json:"tier"`
+	Class    string   `json:"class"`
+	Key      string   `json:"key"`
+	Detail   string   `json:"detail"`
+	Tape     []uint32 `json:"tape"`
+	Window   []int    `json:"window,omitempty"` // [from,to]: run indices to execute in one process when no single tape reproduces
+	TapeLen0 int      `json:"tape_len_before_shrinking"`
+	Trace    []string `json:"trace"`
+	Schedule []string `json:"schedule_and_faults,omitempty"`
+	Race     string   `json:"race_report,omitempty"`
+	Note     string   `json:"note,omitempty"`
 }
 
 // curSeed is the base seed of the running check (workers derive per-invocation material such
@@ -234,7 +237,11 @@ func cmdCheck(id string, tier string, replayPath string) int {
 		total, capS = p.thorRuns, p.thorS
 	}
 	deadline := time.Now().Add(time.Duration(capS) * time.Second)
-	b, err := runBatch(bin, id, seed, total, p.chunk, 0, deadline, "asc")
+	var batchArgs []string
+	if p.rorder {
+		batchArgs = append(batchArgs, "-digests")
+	}
+	b, err := runBatch(bin, id, seed, total, p.chunk, 0, deadline, "asc", batchArgs...)
 	if err != nil {
 		env.cleanup()
 		exit2("%v", err)
@@ -243,6 +250,9 @@ func cmdCheck(id string, tier string, replayPath string) int {
 	v := b.viol
 	if v == nil && p.post != nil {
 		v = p.post(c)
+	}
+	if v == nil && p.rorder {
+		v = rOrder(c)
 	}
 	if b.runs > 0 && b.aborted*5 > b.runs && v == nil {
 		env.cleanup()
@@ -258,10 +268,13 @@ func cmdCheck(id string, tier string, replayPath string) int {
 		} else {
 			nviol = 1
 			code = 1
+			if strings.HasSuffix(v.Viol.Class, rOrderSuffix) {
+				return reportROrder(c, v)
+			}
 			tape0 := len(v.Tape)
 			sv, tries := shrink(bin, id, v, 90*time.Second)
 			rf := replayFile{Property: id, Seed: seed, RunIndex: v.I, RunSeed: v.Seed, Tier: tier, Class: sv.Viol.Class, Key: sv.Viol.Key,
-				Detail: sv.Viol.Detail, Tape: sv.Tape, TapeLen0: tape0, Trace: sv.Sample, Race: sv.Race}
+				Detail: sv.Viol.Detail, Tape: sv.Tape, TapeLen0: tape0, Trace: sv.Sample, Schedule: sv.Sched, Race: sv.Race}
 			os.MkdirAll(filepath.Join(verifDir, "replays"), 0o755)
 			path := filepath.Join(verifDir, "replays", fmt.Sprintf("%s-%d-%d.json", id, seed, v.I))
 			jb, _ := json.MarshalIndent(rf, "", " ")
@@ -342,6 +355,14 @@ func cmdReplay(c *checkCtx, path string) int {
 		if err != nil {
 			exit2("%v", err)
 		}
+	} else if len(rf.Window) == 2 && strings.HasSuffix(rf.Class, rOrderSuffix) {
+		if rOrderDiffers(c, rf.Window[0], rf.Window[1]+1, rf.RunIndex) {
+			fmt.Printf("replay of %s: class=%s: run %d still depends on what the process executed before\n", path, rf.Class, rf.RunIndex)
+			fmt.Printf("VIOLATION property=%s replay=%s\n", p.id, path)
+			return 1
+		}
+		fmt.Printf("replay of %s: no violation on this tree\n", path)
+		return 0
 	} else if len(rf.Window) == 2 {
 		tierName = rf.Tier
 		cr := runChunk(bin, p.id, rf.Seed, rf.Window[0], rf.Window[1]+1, "asc")
@@ -386,29 +407,29 @@ func writeEvidence(c *checkCtx, nviol int, replay string) {
 	}
 	stuck := []string{}
 	cov := map[string]interface{}{
-		"evaluations":         b.runs,
-		"distinct_nontrivial": len(b.cases),
-		"rule":                c.p.rule,
-		"samples":             samples,
-		"operations":          b.ops,
-		"oracle_comparisons":  b.judged,
-		"simulated_time_steps": b.steps,
-		"simulated_time_note": "the library has no clock; simulated time is scheduler steps (yield points executed)",
-		"context_switches":    b.switches,
-		"distinct_interleavings": len(b.sigs),
+		"evaluations":                    b.runs,
+		"distinct_nontrivial":            len(b.cases),
+		"rule":                           c.p.rule,
+		"samples":                        samples,
+		"operations":                     b.ops,
+		"oracle_comparisons":             b.judged,
+		"simulated_time_steps":           b.steps,
+		"simulated_time_note":            "the library has no clock; simulated time is scheduler steps (yield points executed)",
+		"context_switches":               b.switches,
+		"distinct_interleavings":         len(b.sigs),
 		"distinct_interleavings_measure": "distinct hashes over the sequence of (yield site, from-task, to-task) of all context switches of a run",
-		"runs_per_hour":       int(float64(b.runs) / runS * 3600),
-		"seeds_per_hour":      int(float64(b.runs) / runS * 3600),
-		"faults_fired":        faultKinds,
-		"reach_probes":        b.probes,
-		"aborted_runs":        b.aborted,
-		"yield_sites":         b.sites,
-		"worker_processes":    b.chunks,
-		"real_components":     []string{"generated PEG parser", "parser actions", "evaluator (all syntax nodes)", "parseMutex (real sync.Mutex, acquired through TryLock)", "error types", "user-function dispatch"},
-		"replaced_components": []string{"storage policy of sync.Pool (Put->Get contract preserved)", "blocking in sync.Mutex.Lock (TryLock + simulated park)", "Go map iteration order", "goroutine scheduling (one runnable task at a time, chosen by the seeded scheduler)"},
-		"harness_components":  []string{"caller tasks", "user callbacks", "documents", "configs"},
-		"instrumentation":     map[string]int{"files": c.env.instr.Files, "sites": len(c.env.instr.Sites), "mutex_ops": c.env.instr.MutexOps, "pool_ops": c.env.instr.PoolOps, "map_ranges": c.env.instr.MapRanges},
-		"build_s":             c.env.buildS,
+		"runs_per_hour":                  int(float64(b.runs) / runS * 3600),
+		"seeds_per_hour":                 int(float64(b.runs) / runS * 3600),
+		"faults_fired":                   faultKinds,
+		"reach_probes":                   b.probes,
+		"aborted_runs":                   b.aborted,
+		"yield_sites":                    b.sites,
+		"worker_processes":               b.chunks,
+		"real_components":                []string{"generated PEG parser", "parser actions", "evaluator (all syntax nodes)", "parseMutex (real sync.Mutex, acquired through TryLock)", "error types", "user-function dispatch"},
+		"replaced_components":            []string{"storage policy of sync.Pool (Put->Get contract preserved)", "blocking in sync.Mutex.Lock (TryLock + simulated park)", "Go map iteration order", "goroutine scheduling (one runnable task at a time, chosen by the seeded scheduler)"},
+		"harness_components":             []string{"caller tasks", "user callbacks", "documents", "configs"},
+		"instrumentation":                map[string]int{"files": c.env.instr.Files, "sites": len(c.env.instr.Sites), "mutex_ops": c.env.instr.MutexOps, "pool_ops": c.env.instr.PoolOps, "map_ranges": c.env.instr.MapRanges},
+		"build_s":                        c.env.buildS,
 	}
 	for k, v := range c.extra {
 		cov[k] = v
@@ -442,3 +463,108 @@ func sortedKeys(m map[string]int) []string {
 }
 
 var _ = strings.TrimSpace
+
+// rOrder is the R-order oracle (DESIGN.md §2.5): a sample of the worker processes of the main
+// batch is executed again with the run indices in descending order, and a few runs each alone;
+// per-run digests (every scheduling/pool/map decision and every outcome) must be equal.  A
+// difference means that state leaked from one run into a later one.
+func rOrder(c *checkCtx) *found {
+	b := c.b
+	if len(b.digests) == 0 {
+		return nil
+	}
+	nchunks := 8
+	if c.tier == "thorough" {
+		nchunks = 64
+	}
+	type job struct{ from, to int }
+	var jobs []job
+	step := (b.runs / c.p.chunk) / nchunks
+	if step < 1 {
+		step = 1
+	}
+	for k := 0; k*c.p.chunk < b.runs && len(jobs) < nchunks; k += step {
+		from := k * c.p.chunk
+		to := from + c.p.chunk
+		if _, ok := b.digests[to-1]; !ok {
+			continue
+		}
+		jobs = append(jobs, job{from, to})
+	}
+	compared, alone := 0, 0
+	var first *found
+	var mu sync.Mutex
+	var wg sync.WaitGroup
+	sem := make(chan struct{}, 16)
+	for _, j := range jobs {
+		j := j
+		wg.Add(1)
+		go func() {
+			defer wg.Done()
+			sem <- struct{}{}
+			defer func() { <-sem }()
+			check := func(cr chunkResult, how string) {
+				mu.Lock()
+				defer mu.Unlock()
+				if cr.err != nil || cr.sum == nil {
+					return
+				}
+				for k, v := range cr.sum.Digests {
+					i, _ := strconv.Atoi(k)
+					compared++
+					if want, ok := b.digests[i]; ok && want != v && first == nil {
+						first = &found{From: j.from, I: i, Viol: Violation{Class: c.p.id + rOrderSuffix, Key: fmt.Sprintf("run %d", i),
+							Detail: fmt.Sprintf("run %d of seed %d gives event digest %x when the process executes runs %d..%d in ascending order and %x %s: state leaked from one run into another", i, c.seed, want, j.from, j.to-1, v, how)}}
+					}
+				}
+			}
+			check(runChunk(c.bin, c.p.id, c.seed, j.from, j.to, "desc", "-digests"), "in descending order")
+			// and the last run of the chunk alone, as the only run of a fresh process
+			cr := runChunk(c.bin, c.p.id, c.seed, j.to-1, j.to, "asc", "-digests")
+			mu.Lock()
+			alone++
+			mu.Unlock()
+			check(cr, "alone in a fresh process")
+		}()
+	}
+	wg.Wait()
+	c.extra["r_order_runs_compared"] = compared
+	c.extra["r_order_runs_alone"] = alone
+	return first
+}
+
+const rOrderSuffix = ":run-depends-on-what-the-process-executed-before"
+
+// rOrderDiffers re-executes runs [from,to) in ascending and descending order and alone, and
+// reports whether run i's digest differs between any two of them.
+func rOrderDiffers(c *checkCtx, from, to, i int) bool {
+	get := func(cr chunkResult) (uint64, bool) {
+		if cr.err != nil || cr.sum == nil {
+			return 0, false
+		}
+		v, ok := cr.sum.Digests[strconv.Itoa(i)]
+		return v, ok
+	}
+	a, ok1 := get(runChunk(c.bin, c.p.id, c.seed, from, to, "asc", "-digests"))
+	d, ok2 := get(runChunk(c.bin, c.p.id, c.seed, from, to, "desc", "-digests"))
+	o, ok3 := get(runChunk(c.bin, c.p.id, c.seed, i, i+1, "asc", "-digests"))
+	return ok1 && ok2 && ok3 && (a != d || a != o)
+}
+
+func reportROrder(c *checkCtx, v *found) int {
+	to := v.From + c.p.chunk
+	rf := replayFile{Property: c.p.id, Seed: c.seed, RunIndex: v.I, Tier: c.tier, Class: v.Viol.Class, Key: v.Viol.Key, Detail: v.Viol.Detail,
+		Window: []int{v.From, to - 1}, Note: "R-order: replay executes runs window[0]..window[1] of seed in ascending order, in descending order, and run_index alone, and compares run_index's event digest"}
+	os.MkdirAll(filepath.Join(verifDir, "replays"), 0o755)
+	path := filepath.Join(verifDir, "replays", fmt.Sprintf("%s-%d-%d.json", c.p.id, c.seed, v.I))
+	jb, _ := json.MarshalIndent(rf, "", " ")
+	os.WriteFile(path, jb, 0o644)
+	fmt.Printf("violation class=%s key=%q\n%s\n", v.Viol.Class, v.Viol.Key, v.Viol.Detail)
+	if !rOrderDiffers(c, v.From, to, v.I) {
+		c.env.cleanup()
+		exit2("R-order difference of %s did not reproduce from %s: not reported as a verdict", c.p.id, path)
+	}
+	fmt.Printf("VIOLATION property=%s replay=%s\n", c.p.id, path)
+	writeEvidence(c, 1, path)
+	return 1
+}
